@@ -17,7 +17,7 @@ func Bind4Context[A, B, C, D, E any](scope Scope, a Incr[A], b Incr[B], c Incr[C
 		return tuple4[A, B, C, D]{av, bv, cv, dv}
 	})
 	bind := BindContext(scope, m, func(ctx context.Context, bs Scope, tv tuple4[A, B, C, D]) (Incr[E], error) {
-		return fn(ctx, scope, tv.A, tv.B, tv.C, tv.D)
+		return fn(ctx, bs, tv.A, tv.B, tv.C, tv.D)
 	})
 	bind.Node().SetKind(KindBind4)
 	return bind
